@@ -272,6 +272,10 @@ def _run_chunk(bounds):
 def run_space(report, space, fn, workers=None, chunk=None, determinism_probe=3):
     """Evaluate fn on every case of the space; merge into the report."""
     global _FN, _SPACE
+    only = os.environ.get("VERIF_ONLY_SPACE")
+    if only and only != space.name:  # debugging aid; a restricted run is reported as capped
+        report.cap("space %s skipped (VERIF_ONLY_SPACE=%s)" % (space.name, only))
+        return {"evaluations": 0, "outcomes": {}, "extra": collections.Counter(), "maxima": {}, "viol": [], "nviol": 0}
     _FN, _SPACE = fn, space
     t0 = time.time()
     workers = workers or WORKERS
